@@ -450,8 +450,10 @@ where
         // add the new element in the qp vector as the last in the heap
         self.store.qp.push(Position(i));
         self.store.heap.push(Index(i));
-        self.bubble_up(Position(i), Index(i));
+        // count the new element before sifting it: a panic in a comparison
+        // must not leave size behind the length of heap and qp
         self.store.size += 1;
+        self.bubble_up(Position(i), Index(i));
         None
     }
 
@@ -753,9 +755,13 @@ where
             false
         } {
             unsafe {
+                // complete the swap at every level: if the next comparison
+                // panics, heap and qp must still be consistent with each other
                 let parent_index = *self.store.heap.get_unchecked(parent_position.0);
                 *self.store.heap.get_unchecked_mut(position.0) = parent_index;
                 *self.store.qp.get_unchecked_mut(parent_index.0) = position;
+                *self.store.heap.get_unchecked_mut(parent_position.0) = map_position;
+                *self.store.qp.get_unchecked_mut(map_position.0) = parent_position;
             }
             position = parent_position;
         }
